@@ -209,7 +209,9 @@ class DCmp:
                         self.bad("payload-delimitation", "the payload extends to the end (minus static trailing fields) in the "
                                  "reference but the decoder delimits it by a field")
                     elif gs.get("tail") != ws["tail"]:
-                        self.bad("payload-tail", f"the payload must leave {ws['tail']} trailing octet(s), the decoder leaves "
+                        later = W[W.index(w) + 1:]
+                        cause = "|padded-array" if any(x["k"] == "array" and x.get("pad") for x in later) else ""
+                        self.bad("payload-tail" + cause, f"the payload must leave {ws['tail']} trailing octet(s), the decoder leaves "
                                  f"{gs.get('tail')}")
             elif k == "typedef":
                 self.n += 1
